@@ -376,8 +376,9 @@ def check_depth_containers(report: Report, repo: Repo, rule: str) -> None:
     """Depth containers: depth tag == number of layers (len(self)), untagged parameters refused."""
     from ..nnmodel import container_super_hook
 
-    def layer(name: str, tagged: bool = True) -> Obj:
+    def layer(name: str, tagged: bool = True, frozen: bool = False) -> Obj:
         p = Obj("torch.nn.Parameter", attrs=({"mup_type": "weight", "mup_scaling_depth": None} if tagged else {}), open_attrs=False)
+        p.attrs.update({"requires_grad": not frozen, "grad": None, "is_leaf": True})
         return Obj("torch.nn.Module", attrs={"_params": [("weight", p)], "_modules": {}, "_p": p}, term=T("param", (name,)))
 
     for cname, kind in (("DepthModuleList", "ModuleList"), ("DepthSequential", "Sequential")):
@@ -389,6 +390,9 @@ def check_depth_containers(report: Report, repo: Repo, rule: str) -> None:
             "one layer": ([layer("a")], 1, None),
             "weight tying: the same layer instance four times": ([shared, shared, shared, shared], 4, None),
             "an untagged parameter": ([layer("a"), layer("plain", tagged=False)], None, "ValueError"),
+            # frozen when the stack is built (fine-tuning unfreezes later): still a layer of the stack
+            "a frozen layer among three": ([layer("a"), layer("b", frozen=True), layer("c")], 3, None),
+            "an untagged frozen parameter": ([layer("a"), layer("plain", tagged=False, frozen=True)], None, "ValueError"),
         }
         if kind == "ModuleList":
             from ..values import OneShot
